@@ -6,7 +6,7 @@ import Proofs.SdProofs
 import Proofs.CtrRefines
 import Proofs.PyFileRefines
 namespace Pyctr.C14
-open Pyctr Pyctr.Sd Pyctr.Romfs
+open Pyctr Pyctr.Sd
 
 /-- the counter is derived from SHA-256 of the lower-cased, forward-slashed, NUL-terminated UTF-16LE path (halves
     XORed) — for every path outside the '/backup…' alias guard (the guarded paths are the known finding
@@ -20,6 +20,15 @@ theorem C14_iv_partial (lower : Str → Str) (H : Bytes → Bytes) (p : Str)
 /-- case-insensitivity, for every input -/
 theorem C14_case_insensitive (lower : Str → Str) (H : Bytes → Bytes) (p q : Str) (h : lower p = lower q) :
     sdIv lower H p = sdIv lower H q := sdIv_case lower H p q h
+
+/-- inside the alias guard (the recorded finding `sd.backup-alias`): the counter is that of the rewritten path
+    `/title/<p[12:20]>/<p[20:28]>/data<p[28:]>`, which is a different string - together with `C14_iv_partial` this is the complete
+    behaviour of `sd_path_to_iv` -/
+theorem C14_alias_exact (lower : Str → Str) (H : Bytes → Bytes) (p : Str)
+    (h : (startsWith (fwd (lower p)) strBackup && (fwd (lower p)).length > 28) = true) :
+    sdIv lower H p = ivOfNormalised H (strTitle ++ ((fwd (lower p)).drop 12).take 8 ++ [0x2F] ++ ((fwd (lower p)).drop 20).take 8 ++
+      strData ++ (fwd (lower p)).drop 28) ∧ remap (fwd (lower p)) ≠ fwd (lower p) :=
+  ⟨sdIv_alias lower H p h, remap_ne _ h⟩
 
 /-- separator-insensitivity, for every input (given that lower-casing does not create or destroy separators) -/
 theorem C14_separator_insensitive (lower : Str → Str) (H : Bytes → Bytes) (p : Str)
